@@ -60,6 +60,12 @@ def run(ctx):
                   sample=dict(case=c, observed=o) if c["cyclic"] and len(c["edges"]) > 3 else None)
         if c["cyclic"] and not o["found"]:
             ctx.violation("C06 missed-cycle", dict(case=c, observed=o))
+        elif o.get("early"):
+            ctx.violation("C06 cycle-reported-before-any-dependency-was-resolved", dict(case=c, observed=o))
+        elif "again" in o and c["cyclic"] != o["again"]:
+            # the build's detector is long-lived: a pass made while the graph was still incomplete must not blind a later one
+            ctx.violation("C06 %s by a detector that had checked the graph before its edges were resolved"
+                          % ("missed-cycle" if c["cyclic"] else "false-cycle-on-dag"), dict(case=c, observed=o))
         elif not c["cyclic"] and o["found"]:
             ctx.violation("C06 false-cycle-on-dag", dict(case=c, observed=o))
         elif o["found"] and not genuine(c, o["cycle"]):
